@@ -133,7 +133,7 @@ MinLen(a, b) == IF a < b THEN a ELSE b
 Norm(t, v) ==
   IF v = Nil THEN Nil
   ELSE IF t.k = "prim" THEN (IF v[2] = "" /\ t.p \in {"ByteArray"} THEN Nil ELSE v)
-  ELSE IF t.k \in {"attr", "any"} \/ v[1] = "leaf" THEN v          \* (a leaf where a structure is declared: an error marker of the driver)
+  ELSE IF t.k \in {"attr", "any", "enum"} \/ v[1] = "leaf" THEN v          \* (a leaf where a structure is declared: an error marker of the driver)
   ELSE IF t.k = "arr" THEN <<"seq", NormSeq(t.of, v[2])>>
   ELSE LET rt == Runtime(t, v)                          \* the value's own class when it is a registered subclass
            fl == FlatFields(rt)
